@@ -6,6 +6,8 @@ import SqlObjVerif.Lemmas.PyFailFrame
 import SqlObjVerif.Lemmas.FailCreateXMain
 import SqlObjVerif.Lemmas.PyCreateFrame
 import SqlObjVerif.Lemmas.FailDestroyXInh
+import SqlObjVerif.Lemmas.FailXSync
+import SqlObjVerif.Lemmas.FailOpXInh
 /-!
 C06: `stepX` (the translated program of a tied operation under a schedule) = `Fail.step` (the hand-compiled tree under
 the same schedule), for every schema, state, tied operation and schedule.
@@ -78,7 +80,7 @@ theorem view_of_viewObs (o : Outcome) (r : Fail.St × Option Err) (h : viewObs o
   simpa [viewObs, runObs] using h
 
 theorem stepX_eq_model (sch : Schema) (props : Nat → Extra) (s : Fail.St) (op : Op) (inj : Option Inj)
-    (hT : Tied sch op) : stepX sch props s op inj = some (runObs (Fail.step sch s op inj)) := by
+    (hT : Tied sch s op) : stepX sch props s op inj = some (runObs (Fail.step sch s op inj)) := by
   cases op with
   | setattr c id col v => exact view_of_viewObs _ _ (setValueF_eq sch inj props _ c id col v hT)
   | set c id kw ex =>
@@ -93,7 +95,7 @@ theorem stepX_eq_model (sch : Schema) (props : Nat → Extra) (s : Fail.St) (op 
     · have := setF_extras_lazy_core sch inj (propsOf (clsOf sch c).cols.length ex) { s with n := 0, log := [] } c id _ _ _ hl hN hk he
       rw [hp] at this
       exact view_of_viewObs _ _ this
-  | sync c id => exact hT.elim
+  | sync c id => exact view_of_viewObs _ _ (syncUpdateF_eq sch inj props _ c id hT)
   | create c m kw ex =>
     obtain ⟨hex, hlt, hnd, hm⟩ := hT
     subst hex
@@ -101,8 +103,14 @@ theorem stepX_eq_model (sch : Schema) (props : Nat → Extra) (s : Fail.St) (op 
       hnd hlt
     rw [kwFullOf_nodefault, missingOf_flag _ _ _ hm] at this
     exact view_of_viewObs _ _ this
-  | createChild c pkw ckw => exact hT.elim
-  | createChain l => exact hT.elim
+  | createChild c pkw ckw =>
+    have hT' : Fail.InhX.TiedInh sch s (.createChild c pkw ckw) := hT
+    show (if _ then _ else _ : Option _).map runObs = _
+    rw [if_pos hT', Fail.stepXInh_eq_model sch s _ inj hT']; rfl
+  | createChain l =>
+    have hT' : Fail.InhX.TiedInh sch s (.createChain l) := hT
+    show (if _ then _ else _ : Option _).map runObs = _
+    rw [if_pos hT', Fail.stepXInh_eq_model sch s _ inj hT']; rfl
   | destroy c id =>
     show (FailDX.destroyI sch inj _ _ c id _).map runObs = _
     rw [FailDX.C06_translated_inhdestroy_eq_model sch inj _ (fun c h => by
@@ -118,7 +126,7 @@ theorem stepXO_frame (sch : Schema) (props : Nat → Extra) (s : Fail.St) (op : 
   cases op with
   | setattr c id col v => exact run_frameX noCall noCall_frame _ _ _ _ _ _ (mkW sch inj props _ c id _)
   | set c id kw ex => exact run_frameX propCall propCall_frame _ _ _ _ _ _ (mkW sch inj _ _ c id _)
-  | sync c id => trivial
+  | sync c id => exact run_frameX noCall noCall_frame _ _ _ _ _ _ (mkW sch inj props _ c id _)
   | create c m kw ex => exact PyCreate.createF_frame _ _ sch inj props _ c _ none kw
   | createChild c pkw ckw => trivial
   | createChain l => trivial
@@ -138,9 +146,19 @@ theorem stepXS_frame (sch : Schema) (props : Nat → Extra) (s : Fail.St) (op : 
     rw [heq] at h
     simp only [Option.some.injEq] at h
     exact Fail.run_frame sch inj _ _ s' r h
-  · have hf := stepXO_frame sch props s op inj
+  · by_cases hi : (∃ c pkw ckw, op = .createChild c pkw ckw) ∨ (∃ l, op = .createChain l)
+    · rcases hi with ⟨c, pkw, ckw, rfl⟩ | ⟨l, rfl⟩
+      · simp only [stepXS] at h
+        split at h
+        · rename_i hT; exact Fail.stepXInh_frame sch s _ inj hT s' r h
+        · cases h
+      · simp only [stepXS] at h
+        split at h
+        · rename_i hT; exact Fail.stepXInh_frame sch s _ inj hT s' r h
+        · cases h
+    have hf := stepXO_frame sch props s op inj
     have hv : (stepXO sch props s op inj).view = some (s', r) := by
-      cases op <;> first | exact h | exact absurd ⟨_, _, rfl⟩ hd
+      cases op <;> first | exact h | exact absurd ⟨_, _, rfl⟩ hd | exact absurd (.inl ⟨_, _, _, rfl⟩) hi | exact absurd (.inr ⟨_, rfl⟩) hi
     cases ho : stepXO sch props s op inj with
     | ret w v =>
       rw [ho] at hv hf
